@@ -3,6 +3,7 @@
    check_c13) compares with the implementation on every injected error; sys/Fix.v is the abstract model of Validate's
    struct-usage loop (gen.go: "for changed { for name := range usage { for used := range usage[name] { ... } } }"), with the
    order in which Go ranges over its maps left ARBITRARY (an oracle, possibly different in every pass).  Proved about it: *)
+Require Import Bebop.front.Tok Bebop.front.Parse Bebop.front.Valid Bebop.front.ValidFacts.
 Require Import Bebop.sys.Fix.
 From Coq Require Import List.
 Import ListNotations.
@@ -26,3 +27,15 @@ Proof.
 Qed.
 
 Print Assumptions C13_partial.
+
+(* The executable validator model (front/Valid.v - the one the correspondence check compares with File.Validate on every
+   injected error) is SOUND for every clause of the property that does not involve recursion: whatever File it accepts has
+   no duplicate const / definition / union-branch / field / enum-option name, no duplicate enum value, no duplicate non-zero
+   opcode, no definition or branch named like a primitive, and every struct and message field type names defined types
+   only, at every depth of array and map nesting (sem_ok, front/ValidFacts.v).  Not covered here: types inside union
+   branches (the known finding), index and literal-range clauses (decided by the parser model), and the recursion clause,
+   which C13_partial settles on the abstract loop. *)
+Definition C13_sound_statement : Prop := forall f, validate f = true -> sem_ok f.
+Theorem C13_sound : C13_sound_statement.
+Proof. exact validate_sound. Qed.
+Print Assumptions C13_sound.
